@@ -137,10 +137,10 @@ QUICK_ACC = {"sum_n_b", "sum_b_y", "prod_sum"}
 PROPS["C10"] = {
     "filters": ["k10_"],
     "functions": ["value::{copy_bits, right_shift_1, product} (private kernels behind Value::{left,right,product}, via verif-hooks)",
-                  "ValueRef::{as_left, as_right, as_product, first_bit, to_value}", "RawByteIter::next", "Value::{iter_padded, padded_len, from_padded_bits}",
+                  "ValueRef::{as_left, as_right, as_product, first_bit, to_value}", "RawByteIter::next", "Value::{iter_padded, padded_len}",
                   "Final::{sum, product, bit_width, as_sum, as_product}"],
     "bounds": "buffers of 2-4 symbolic bytes, every bit offset 0..7, copies of up to 16 bits at every source/destination alignment; 8 type shapes (sums of unequal width with padding on either side, unit-heavy and nested products/sums, widths crossing byte boundaries) with all data, padding and surrounding bits symbolic",
-    "outside": "the compact encoding (CompactBitsIter, from_compact_bits) and Value::prune: they walk Vec<ValueRef>/Vec<Value> worklists whose symbolic execution exhausts 62 GB even for a 2-bit value (measured, DESIGN.md); types wider than 17 bits; words beyond 2^8, buffer and context types",
+    "outside": "Value::from_padded_bits (56 M SAT variables for a 9-bit type: out of memory); the compact encoding (CompactBitsIter, from_compact_bits) and Value::prune: they walk Vec<ValueRef>/Vec<Value> worklists whose symbolic execution exhausts 62 GB even for a 2-bit value (measured, DESIGN.md); types wider than 17 bits; words beyond 2^8, buffer and context types",
     "assumptions": ["values are built from raw parts (buffer, bit offset, type) through the verif-hooks, which is what sub-value extraction produces",
                     "Tmr::sum/product stubbed by exact hash-consing (type equality exact, root values abstract); precomputed types rebuilt without the thread-local cache; Arc::drop_slow leaks"],
     "harnesses": [
@@ -151,9 +151,6 @@ PROPS["C10"] = {
         H("k10_product_kernel_0_8", tiers=("thorough",), timeout=1200, mem_gb=16, unwindset=valk_rules()),
     ] + [H("k10_acc_%s" % a, tiers=(("quick", "thorough") if a in QUICK_ACC else ("thorough",)), timeout=2400, mem_gb=26,
            unwind=8, unwindset=valk_rules()) for a in ACC] + [
-        H("k10_pdec_sum_b_y", tiers=("thorough",), timeout=3600, mem_gb=40, core=False, unwind=8, unwindset=valk_rules()),
-        H("k10_pdec_prod_yy", tiers=("thorough",), timeout=3600, mem_gb=40, core=False, unwind=8, unwindset=valk_rules()),
-        H("k10_pdec_unit", tiers=("thorough",), timeout=900, core=False, unwind=8, unwindset=valk_rules()),
     ],
 }
 
